@@ -58,8 +58,12 @@ func c14ClassTables(c *Ctx) {
 				}
 				for _, a := range call.Call.Args {
 					if u, ok := a.(*ssa.UnOp); ok {
-						if gl, ok := u.X.(*ssa.Global); ok && strings.HasPrefix(gl.Name(), "unicodeES5") {
-							out[gl.Name()] = true
+						if gl, ok := u.X.(*ssa.Global); ok {
+							for _, canon := range []string{"unicodeES5IdentifierStart", "unicodeES5IdentifierPart"} {
+								if gl.Name() == c.P.alias(canon) {
+									out[canon] = true
+								}
+							}
 						}
 					}
 				}
@@ -342,7 +346,7 @@ func c14Keywords(c *Ctx) {
 			}
 			keyOK := false
 			for _, rt := range plainOrigins.Roots(mu.Key) {
-				if rt.Kind == "global" && rt.V.(*ssa.Global).Name() == "tokens" {
+				if rt.Kind == "global" && rt.V.(*ssa.Global).Name() == c.P.alias("tokens") {
 					keyOK = true
 				}
 			}
@@ -819,6 +823,7 @@ func c14RangeTables(c *Ctx) {
 
 // sliceLiteralInts evaluates `var name = []T{...}` element constants from the syntax tree.
 func (c *Ctx) sliceLiteralInts(name string) ([]int64, string) {
+	name = c.P.alias(name)
 	for _, file := range c.P.Root.Syntax {
 		for _, d := range file.Decls {
 			gd, ok := d.(*ast.GenDecl)
@@ -987,7 +992,7 @@ func (c *Ctx) keywordBuilderRange(kwG *ssa.Global) (lo, hi int64, pos string, ok
 			if !isSl || sl.Low == nil || sl.High == nil {
 				return
 			}
-			if gl, isG := sl.X.(*ssa.Global); !isG || gl.Name() != "tokens" {
+			if gl, isG := sl.X.(*ssa.Global); !isG || gl.Name() != c.P.alias("tokens") {
 				return
 			}
 			l, okL := constIntArg(sl.Low)
